@@ -46,6 +46,14 @@ CHECKS = {
    text="Universal Coq theorem (Cfg/Ebnf.v, Cfg/Translate.v): for every rule list, naming of synthesised non-terminals and production set satisfying a decidable premise (the production set is one production per alternative plus the expansions gen->a|eps, gen->gen a|eps, gen->gen a|a, gen->a; synthesised names distinct per (alternatives, kind) and distinct from every user-mentioned name), every user rule generates exactly the terminal strings its EBNF text denotes — for all nestings/combinations of ( ) [ ] { } {{ }} | and trailing |, all sentences of all lengths. The production set and naming are those of the Coq model of emerge's symbol table (reduce actions by production index, memo keyed by multiset of alternatives, name synthesis, counter), run through the full front-end model (scanner, LR driver, tree) on each generated specification; the kernel evaluates the premise per specification and the production set is compared with spec.Parse. Known finding D2 (name collisions) is refuted by a witness theorem and reported; D1 was found by this check and fixed.",
    note=TB + "The symbol table and reduce actions are modelled by hand (Emerge/SpecModel.v) and tied to spec.Parse by comparing the production set on generated specifications; the failing-input search uses an independent bounded EBNF evaluator (Python).",
    tech="Coq proof (translate_preserves / pure_ok_sound) + kernel-evaluated premise per specification + differential correspondence of the production set"),
+ "C07": dict(cat="proof",
+   text="Coq model of emerge's terminal table, Verify (single / distinct definitions, start rule), CFG.Verify, Precedences.Verify and Definitions(), run through the full front-end model. Universal theorems: an accepted specification has exactly one definition for every terminal; the definition list is a permutation of the singly-defined terminals. Per generated specification (every single listed defect and random combinations, shuffled declarations), kernel-evaluated: the model's verdict and definitions equal an independent declarative reading written over the declaration list (claimed under names_distinct; known finding D7 refuted by a witness), and verdict, diagnostics as (kind, symbol) sets, and the ORDERED definition list of spec.Parse / Spec.DFA equal the model's (invalid patterns decided through the C09 pattern model).",
+   note=TB + "The 'iff' between the model and the declarative well-formedness is evaluated per specification, not proved for all specifications (needs the symbol-table invariants); the model itself is tied to the code by the correspondence.",
+   tech="Coq model + universal lemmas; per-instance kernel evaluation of model == declarative spec; differential correspondence of verdict/diagnostics/definitions"),
+ "C12": dict(cat="proof",
+   text="Universal Coq theorem: for every declaration list the symbol-table model records exactly one level per directive, in source order, with the associativity written. Per generated specification (0-8 levels, every associativity, string/named terminals, rule handles with alternation and extended operators and empty bodies, duplicates inside a level, interleaved declarations), kernel-evaluated: the handle sets of every level equal the declarative reading (one production handle per alternative of a rule handle's expansion), every production handle is one of the grammar's productions, and the levels equal Spec.Precedences of the implementation.",
+   note=TB + "Handle sets are validated per specification (the naming of synthesised non-terminals is state-dependent); order/associativity/count is a theorem.",
+   tech="Coq proof (levels_in_source_order) + per-instance kernel evaluation + differential correspondence"),
 }
 
 ORDER = sorted(CHECKS)
